@@ -477,6 +477,21 @@ def make_fault(rng, op, specs, sh, wl):
             row = rng.choice(a["v"])
             row[rng.randrange(len(row))] = bad
         return op
+    if k == "transfer" and r < 0.33:
+        # broadcast one side and hide an unknown id behind valid ones on the other
+        side, other = rng.choice([("dwells", "swells"), ("swells", "dwells")])
+        lw_side = op["dst"] if side == "dwells" else op["src"]
+        lw_other = op["src"] if side == "dwells" else op["dst"]
+        ws = sh.wells(lw_side)
+        n = rng.choice([2, 3, 4])
+        lst = [rng.choice(ws) for _ in range(n)]
+        lst[rng.randrange(1, n)] = rng.choice(["A1", "A001", "a01", "AB01", "Z99", "H13x"])
+        op[side] = {"shape": "list", "v": lst}
+        op[other] = {"shape": rng.choice(["scalar", "list"]), "v": sh.wells(lw_other)[0]}
+        if op[other]["shape"] == "list":
+            op[other]["v"] = [op[other]["v"]]
+        op["vols"] = {"shape": "scalar", "v": "1"}
+        return op
     if k == "transfer" and r < 0.45:
         op["ws"] = rng.choice([0, 5, {"other": "float2"}, {"other": "str"}])
         return op
